@@ -6,7 +6,7 @@ lemmas: QbVerif/Lemmas/Hdb*.lean).  Every statement is about an ARBITRARY histor
 
     pre ++ [create d] ++ post
 
-on a fresh database: `pre` and `post` are arbitrary lists of create / get / get_always / put /
+on a fresh database: `pre` and `post` are arbitrary lists of create / failing create (malloc returns NULL) / get / get_always / put /
 destroy / refcount / iterator_reset / iterator_next calls with arbitrary handle arguments (any
 natural number: issued values, copies, values of destroyed objects, never-issued values, the
 no-check form, slots beyond the table) and arbitrary `random()` results; `create d` is the call
@@ -250,8 +250,7 @@ theorem iter_visits_exactly_live (ops : List Op) :
       rw [← run_split, ← hops] at T
       unfold Track at T
       by_cases hl : 0 < (ledger pre d post h K).count
-      · have hjs : j = hSlot h := by
-          by_contra hne; exact T.others j hne hin
+      · have hjs : j = hSlot h := Classical.byContradiction fun hne => T.others j hne hin
         have he := (T.live hl).1
         rw [← hjs] at he
         have hnd : ¬ Destroyed pre d post h K := by
@@ -274,5 +273,102 @@ theorem iter_visits_exactly_live (ops : List Op) :
     rw [hx]; unfold Tbl.visit; rw [he]
     show _ = (some K, mkHandle (hCheck h) (hSlot h))
     rw [T.hform]
+
+/-! ### non-vacuity: a concrete history with two objects, iteration, destroy, drain to zero, slot reuse
+
+`exPre` creates object 0 (slot 0, check 7) and takes a reference; `create [0, 0, 5]` (random() returns
+0, 0, 5) issues `exH` = check 5 / slot 1 for object 1. -/
+
+-- the concrete `decide` facts below evaluate histories in the kernel (the 200-round draw loop included)
+set_option maxRecDepth 8192
+
+def exPre : List Op := [.create [7], .get (mkHandle 7 0)]
+def exD : List Nat := [0, 0, 5]
+def exH : Nat := mkHandle 5 1
+/-- uses of object 1 while nobody destroyed it (explicit get, iteration visit, a foreign put) -/
+def exUse : List Op := [.get exH, .iterReset, .iterNext, .iterNext, .put (mkHandle 9 1), .put exH]
+/-- destroy with two references outstanding -/
+def exPend : List Op := exUse ++ [.get (mkHandle NOCHECK 1), .destroy exH]
+/-- … put down to zero (the last put through the no-check form) -/
+def exDead : List Op := exPend ++ [.put exH, .put (mkHandle NOCHECK 1)]
+/-- … the slot is reused for object 2 (check 6), the stale value is poked, the new object used -/
+def exMore : List Op := [.create [6], .get exH, .put exH, .destroy exH, .get (mkHandle 6 1), .iterReset, .iterNext]
+
+example : Issues exPre exD 1 exH ∧ GoodCheck exH := by decide
+example : Live exPre exD exUse exH 1 ∧ ¬ Destroyed exPre exD exUse exH 1 ∧ addresses (mkHandle NOCHECK 1) exH = true := by
+  decide
+example : Live exPre exD exPend exH 1 ∧ Destroyed exPre exD exPend exH 1 := by decide
+example : ¬ Live exPre exD exDead exH 1 ∧ Fresh (exPre ++ .create exD :: (exDead ++ exMore)) := by decide
+/-- the slot of the dead object really is reused in `exMore`, and the new handle works -/
+theorem test_slot_reused :
+    issuedFrom St.init (exPre ++ .create exD :: (exDead ++ exMore)) = [mkHandle 7 0, mkHandle 5 1, mkHandle 6 1] ∧
+    hSlot (mkHandle 6 1) = hSlot exH ∧
+    (run (exPre ++ .create exD :: (exDead ++ exMore))).refcountGet (mkHandle 6 1) = 2 ∧
+    (run (exPre ++ .create exD :: (exDead ++ exMore))).refcountGet exH = EBADF := by decide
+/-- the ledger of the example: 1 + 2 gets − 1 put = 2 before the destroy; the foreign put (check 9) is not counted -/
+theorem test_ledger_example :
+    ledger exPre exD exUse exH 1 = { gets := 2, puts := 1, destroys := 0, dtors := 0 } ∧
+    (run (exPre ++ .create exD :: exUse)).refcountGet exH = 2 ∧
+    ledger exPre exD exDead exH 1 = { gets := 3, puts := 3, destroys := 1, dtors := 1 } := by decide
+/-- a complete pass in the example: object 0 only (object 1 is pending removal) -/
+theorem test_iter_example :
+    (run (exPre ++ .create exD :: exUse)).iterAll = [(some 0, mkHandle 7 0), (some 1, exH)] ∧
+    (run (exPre ++ .create exD :: exPend)).iterAll = [(some 0, mkHandle 7 0)] := by decide
+
+/-! ### the hypotheses of `stale_forever` are necessary; what never-issued values can do -/
+
+/-- **Fresh is necessary** (refutation witness of `stale_forever` without nonce freshness): when `random()`
+    repeats the check on the reused slot, the same 64-bit value is issued again and the stale copy
+    resolves to the NEW object (and can put it). -/
+theorem test_fresh_needed :
+    Issues [] [5] 0 (mkHandle 5 0) ∧ GoodCheck (mkHandle 5 0) ∧
+    ¬ Live [] [5] [.destroy (mkHandle 5 0)] (mkHandle 5 0) 0 ∧
+    ¬ Fresh ([] ++ .create [5] :: ([.destroy (mkHandle 5 0)] ++ [.create [5]])) ∧
+    ((run ([] ++ .create [5] :: ([.destroy (mkHandle 5 0)] ++ [.create [5]]))).get (mkHandle 5 0)).2 = (0, some 1) := by
+  decide
+
+/-- **GoodCheck is necessary**: if `random()` returns 0 two hundred times the handle has check 0, which the
+    zeroed entry of the released slot still "matches": put / destroy on the stale value are accepted and
+    drive the reference count of the EMPTY slot negative. -/
+theorem test_goodcheck_needed :
+    Issues [] [0] 0 (mkHandle 0 0) ∧ ¬ GoodCheck (mkHandle 0 0) ∧
+    ¬ Live [] [0] [.destroy (mkHandle 0 0)] (mkHandle 0 0) 0 ∧
+    Fresh ([] ++ .create [0] :: [.destroy (mkHandle 0 0)]) ∧
+    ((run ([] ++ .create [0] :: [.destroy (mkHandle 0 0)])).put (mkHandle 0 0)).2 = [.rc 0] ∧
+    (run ([] ++ .create [0] :: [.destroy (mkHandle 0 0), .put (mkHandle 0 0)])).refcountGet (mkHandle 0 0) = -1 := by
+  decide
+
+/-- **never-issued value with check 0 on an EMPTY slot** (documented quirk, not a violation of the statement,
+    which promises nothing about arbitrary integers): `destroy` is accepted, the count goes to −1 and the
+    slot stays PENDINGREMOVAL for ever — the next create does not reuse it. -/
+theorem test_check0_quirk :
+    ((run [.create [5], .destroy (mkHandle 5 0)]).destroy (mkHandle 0 0)).2 = [.rc 0] ∧
+    (run [.create [5], .destroy (mkHandle 5 0), .destroy (mkHandle 0 0)]).tbl.get 0 = ⟨PENDING, none, 0, -1⟩ ∧
+    ((run [.create [5], .destroy (mkHandle 5 0), .destroy (mkHandle 0 0)]).create [8]).2 = .created 0 (mkHandle 8 1) := by
+  decide
+
+/-- … but such a value cannot touch a LIVE object: with an object in the slot, check 0 is refused by all four calls -/
+theorem test_check0_live_refused :
+    ((run [.create [5]]).get (mkHandle 0 0)).2 = (EBADF, none) ∧
+    ((run [.create [5]]).put (mkHandle 0 0)).2 = [.rc EBADF] ∧
+    ((run [.create [5]]).destroy (mkHandle 0 0)).2 = [.rc EBADF] ∧
+    (run [.create [5]]).refcountGet (mkHandle 0 0) = EBADF := by decide
+
+/-- the destructor event sits in the very call that takes the count to zero (example) -/
+theorem test_dtor_example :
+    outs ([.create [5], .get (mkHandle 5 0), .destroy (mkHandle 5 0), .put (mkHandle 5 0), .put (mkHandle 5 0)]) =
+      [.created 0 (mkHandle 5 0), .got 0 (some 0), .rc 0, .dtor (some 0), .rc 0, .rc EBADF] := by decide
+
+/-- **a create whose allocation fails** leaves no object behind (nothing to iterate, nothing resolves, the slot
+    is reused) — but the EMPTY entry keeps the reference the create had taken, so a never-issued value on
+    that slot (no-check form / check 0) can be put to zero, which calls the destructor with a NULL instance
+    (quirk on a slot that holds no object; the statement does not cover it; the oracle tags it). -/
+theorem test_createfail :
+    outs [.create [5], .destroy (mkHandle 5 0), .createFail, .iterReset, .iterNext, .get (mkHandle NOCHECK 0),
+          .create [6]] =
+      [.created 0 (mkHandle 5 0), .dtor (some 0), .rc 0, .created ENOMEM 0, .unit, .iter EBADF none 0,
+       .got EBADF none, .created 0 (mkHandle 6 0)] ∧
+    outs [.create [5], .destroy (mkHandle 5 0), .createFail, .put (mkHandle NOCHECK 0)] =
+      [.created 0 (mkHandle 5 0), .dtor (some 0), .rc 0, .created ENOMEM 0, .dtor none, .rc 0] := by decide
 
 end QbVerif.Props.C20
